@@ -31,6 +31,18 @@ FIRST = {
  "mut_C17_3": ("missed", "templated records whose declaration inherits from another templated declaration"),
  "mut_C06_2": ("missed", "clock-less sequential statements with if-expression / select_with default operands"),
  "mut_C02_1": ("missed", "two/three/four level nested constant slices with non-zero lower bounds"),
+ "mut_C02_r6b": ("missed", "C03 corpus: value snapshots of variables (`was = bool(vb); vb @= a; q <<= was`) - a statement-sequence effect, decided by the C03 check"),
+ "mut_C05_r6a": ("missed", "C03 corpus: literals assigned to one target in several branches (push / variable) - decided by the C03 check"),
+ "mut_C06_r6a": ("missed", "(cross-checked with the C05 check: Signed source through the .signed view of a BitVector object)"),
+ "mut_C07_r6b": ("missed", "placement kind `ref`: an element reference with a run-time index that escapes through a pyeval helper and is read by a later context"),
+ "mut_C08_r6b": ("missed", "select_with without default whose 2**width entries include a metavalue pattern"),
+ "mut_C09_r6b": ("missed", "end-to-end grid: every comparison of an Unsigned with a negative / out-of-range int, both operand orders"),
+ "mut_C10_r6a": ("missed", "comprehensions with several trailing if clauses / nested for clauses (list and dict)"),
+ "mut_C11_r6a": ("missed", "two revisions of one design file under one module name (same definition sites, different bodies)"),
+ "mut_C13_r6a": ("missed", "both spellings of the wrapped bool / int types (builtins at odd positions of a sequence)"),
+ "mut_C17_r6a": ("missed", "inherited records whose base classes are serialised before the derived class is first used"),
+ "mut_C17_r6b": ("missed", "BitFields that own their storage (Variable[B](bits)) with nested sub-BitFields"),
+ "mut_C20_r6b": ("missed", "layout with reg32.Output registers (lsbs / msbs / offset) under partial strobes"),
  "mut_C02_2": ("missed by C02 (no assignment-conversion shapes there); caught by C05 and C09", ""),
 }
 rows = []
@@ -45,6 +57,9 @@ for d in sorted(glob.glob(os.path.join(SEEDED, "mut_*"))):
            "DETECTED with input" if w.get("detected_with_input") else
            "DETECTED (no-failing-input-found)" if w.get("detected") else "MISSED")
     also = m.get("also_detected_by", "")
+    for xp, xr in (m.get("cross_check") or {}).items():
+        if xr.get("detected"):
+            also = (also + " " if also else "") + "(%s quick check DETECTS it%s)" % (xp, " with input" if xr.get("detected_with_input") else "")
     first, ch = FIRST.get(name, ("", ""))
     if also and now == "MISSED":
         now = "DETECTED by another property's check; this property's own check: missed."
